@@ -163,13 +163,14 @@ Proof. exact fold_rwvm_sound. Qed.
 Print Assumptions C06_fold_rwvm.
 
 (* ---- lut_identity ---------------------------------------------------------------- *)
+(* (strengthened: the former exception "one-entry 8-bit table read from a file" is gone, D102 fixed) *)
 Theorem C06_lut_identity : forall first data bits expl pad,
-  lut_ok first data bits -> (pad = true -> bits = 8 -> zlen data <> 1) ->
+  lut_ok first data bits ->
   exists l, mk_lut first data bits expl pad = Ok l /\
             lut_data l = Ok data /\ ld_first l = first /\ ld_bits l = bits /\
             lut_entries l = zlen data /\
             ld_n l = (if zlen data =? 65536 then 0 else zlen data).
-Proof. exact lut_identity. Qed.
+Proof. exact lut_identity_full. Qed.
 Print Assumptions C06_lut_identity.
 
 Theorem C06_lut_clip_below : forall (d : Z) first a t x, x <= first -> lut_lookup d first (a :: t) x = a.
@@ -267,14 +268,6 @@ Proof. vm_compute. repeat split. Qed.
 Print Assumptions C06_nonvacuous_gate.
 
 (* ==== extension: end-to-end statements (C06_Proofs_E2E.v) ================================== *)
-(* the case excluded from C06_lut_identity is a genuine failure of the code as it is (reported):
-   a one-entry 8-bit table read back from a file makes lut_data raise TypeError *)
-Theorem C06_lut_identity_one_entry_8bit_file_refuted :
-  exists first data bits expl l,
-    lut_ok first data bits /\ mk_lut first data bits expl true = Ok l /\ lut_data l = Err "TypeError".
-Proof. exact lut_identity_one_entry_8bit_file_refuted. Qed.
-Print Assumptions C06_lut_identity_one_entry_8bit_file_refuted.
-
 (* fold_sound as ONE theorem over every folding case: whatever was discovered (no real world value
    map), a successful folding equals modality -> VOI -> presentation on the stages found *)
 Theorem C06_fold_sound : forall E, exp_like E ->
